@@ -321,6 +321,8 @@ def r7(repo, res, canon):
                         'the reservation count is raised in %s, where no reservation is made' % f.qual)
         if touches:
             res.analysed(f, len(cached_paths(f)))
+    from . import initial
+    initial.check_cluster_counters(repo, res, 'C09.R7', only={'Cluster.num_provisioned_obs'})
     if n_inc and n_dec:
         res.ok('C09.R7', cl.methods['provision_batch_resources'], None,
                'reservation count +1 per successful provisioning, -1 per dropped key', '%d/%d path(s)' % (n_inc, n_dec))
